@@ -326,8 +326,9 @@ class Filter:
     def replace_text(self, fn, rule, pattern, repl, expect, flags=0):
         src = self.files[fn]
         new, n = re.subn(pattern, repl, src, flags=flags)
-        if n != expect:
-            raise ExtractError('%s: %s: pattern %r fired %d times, expected %d' % (rule, fn, pattern, n, expect))
+        ok = (n in expect) if isinstance(expect, (tuple, list, set)) else (n == expect)
+        if not ok:
+            raise ExtractError('%s: %s: pattern %r fired %d times, expected %s' % (rule, fn, pattern, n, expect))
         self.files[fn] = new
         self.note(rule, fn, n, len(src) - len(new) if len(src) > len(new) else 0, len(new) - len(src) if len(new) > len(src) else 0, pattern)
 
@@ -448,5 +449,5 @@ def cubic_filter(repo_src, dst, keep_batch_inverse=False):
     if not keep_batch_inverse:
         f.drop_function(fn, 'batchInverse', expect=1, in_class=True)
     # E-norm: a C-style cast to reference-to-array is mis-typed by CBMC's C++ front end; the equivalent pointer form is used
-    f.replace_text(fn, 'E-norm', r'\(Element &\)zero\(\)', '(*(Element *)&zero())', 1)
+    f.replace_text(fn, 'E-norm', r'\(Element &\)zero\(\)', '(*(Element *)&zero())', (0, 1))   # normalisation: fires when the construct is present
     return f
